@@ -1,4 +1,5 @@
 """C14 — SCMP handling: bounded quoting, valid checksums, faithful echo, no error loops."""
+import re
 import templates as T
 import panic as PN
 import enc as ENC
@@ -97,6 +98,8 @@ def quote_template(F, o):
 
 def run(F, R, tier, cfg):
     demux_sibling_rule(F, R)
+    fanout_rule(F, R)
+    scratch_rule(F, R)
     # ---------------- Q
     v = F.const_value(MAXC)
     R.ob("TBL-1232", "SCMP_ERROR_MAX_PACKET_SIZE == 1232 (evaluated: %s)" % v, v == 1232, True)
@@ -319,6 +322,129 @@ def run(F, R, tier, cfg):
 
 
 _pred_memo = {}
+
+
+FOR_EACH = "scion_stack::internal::Subscribers::<T>::for_each"
+_NONTERM = r"::(iter|into_iter|iter_mut|filter_map|filter|map|flat_map|flatten|cloned|copied|by_ref|inspect|deref|read|expect|unwrap|clone|lock)$"
+_TERM = r"Iterator::(map_while|take_while|take|skip|skip_while|step_by|scan|fuse|peekable|find\w*|position|any|all|nth|last)$"
+
+
+def fanout_rule(F, R):
+    """FANOUT-all: "SCMP errors reach the application-side receivers".  ScmpErrorHandler::handle hands the error to
+    Subscribers::for_each, which must call the closure for every live receiver.  (a) the adaptor chain between the
+    receiver list and the loop contains no adaptor that ends or thins the iteration (map_while / take_while / take /
+    skip / step_by ...); (b) in the loop, the edge on which `Weak::upgrade` is None returns to `next` — a dropped receiver
+    is skipped, not a reason to stop; (c) the callback is invoked on the Some edge with the upgraded receiver."""
+    b = F.body(FOR_EACH)
+    if b is None:
+        R.anchor_missing(FOR_EACH)
+        return
+    R.fn(FOR_EACH)
+    nexts = [c for c in b.calls if c.callee and c.callee.endswith("Iterator>::next") or (c.callee or "").endswith("Iterator::next")]
+    nexts = [c for c in nexts if "field:receivers" in tokens(b.origin(c.args[0]))]
+    calls = [c for c in b.calls if c.callee and re.search(r"function::Fn(Mut|Once)?::call(_mut|_once)?$", c.callee) and "param:2" in tokens(b.origin(c.args[0]))]
+    ok_shape = len(nexts) == 1 and len(calls) >= 1
+    if not ok_shape:
+        # consumer-style implementation (receivers.iter().filter_map(upgrade).for_each(f)): check the chain only
+        cons = [c for c in b.calls if c.callee and re.search(r"Iterator::(for_each|fold|try_for_each)$", c.callee) and "field:receivers" in tokens(b.origin(c.args[0]))]
+        if len(cons) != 1:
+            R.ob("FANOUT-all", "Subscribers::for_each: iteration shape not recognised — not decided", True, False)
+            return
+        chain = strip_sites(b.origin(cons[0].args[0]))
+        site = cons[0]
+    else:
+        chain = strip_sites(b.origin(nexts[0].args[0]))
+        site = nexts[0]
+    bad = sorted({x[1].rsplit("::", 1)[1] for x in walk(chain) if x[0] == "call" and re.search(_TERM, x[1])})
+    R.ob("FANOUT-all", "Subscribers::for_each iterates the whole receiver list (no terminating/thinning adaptor)", not bad, True,
+         {"rule": "FANOUT-all", "chain": fmt(chain, 240), "terminating_adaptors": bad})
+    if bad:
+        R.violation("FANOUT-all", FOR_EACH + "/chain", "Subscribers::for_each walks the receiver list through %s: iteration ends (or skips entries) "
+                    "at the first dropped receiver, so live receivers registered after it never see the SCMP error" % ", ".join(bad), site.span.loc)
+    if not ok_shape:
+        return
+    nb = nexts[0].bb
+    ups = [c for c in b.calls if c.callee and c.callee.endswith("Weak::<T, A>::upgrade")]
+    ok = len(ups) == 1
+    detail = ""
+    if ok:
+        u = ups[0]
+        # the switch on upgrade()'s discriminant
+        sw = [g for g in sorted(b.live_blocks()) if b.term(g)[0] == "switch" and "fn:alloc::sync::Weak::<T, A>::upgrade" in tokens(b.origin(b.term(g)[1]))
+              and strip_sites(b.origin(b.term(g)[1]))[0] == "disc"]
+        ok = len(sw) == 1
+        if ok:
+            g = sw[0]
+            none_t = T.pass_targets(b, g, [0])
+            some_t = T.pass_targets(b, g, [1])
+            cb = calls[0].bb
+            back_none = all(nb in b.reach([s], avoid=[g]) for s in none_t) and bool(none_t)
+            call_some = all(cb in b.reach([s], avoid=[g, nb]) for s in some_t) and bool(some_t)
+            call_none = any(cb in b.reach([s], avoid=[g, nb]) for s in none_t)
+            arg_ok = "fn:alloc::sync::Weak::<T, A>::upgrade" in tokens(b.origin(calls[0].args[1]))
+            ok = back_none and call_some and not call_none and arg_ok
+            detail = "None edge returns to next: %s; callback on the Some edge: %s; callback argument is the upgraded receiver: %s" % (back_none, call_some and not call_none, arg_ok)
+    R.ob("FANOUT-all", "Subscribers::for_each: a dropped receiver is skipped and the loop continues (%s)" % detail, ok, True)
+    if not ok:
+        R.violation("FANOUT-all", FOR_EACH + "/skip-dead", "Subscribers::for_each does not continue with the next receiver when Weak::upgrade fails "
+                    "(%s): receivers after a dropped one never see the SCMP error" % detail, F.loc(FOR_EACH))
+
+
+def scratch_rule(F, R):
+    """BUF-scmp: the datagram receive loops of scion-stack receive *every* packet of the socket — SCMP errors included — into
+    a scratch buffer and hand SCMP packets to the handlers from there.  The scratch buffer must be able to hold any packet
+    the underlay can deliver: `vec![0; N]` with N a constant >= the largest SCMP packet (1232 bytes) that does not depend
+    on the length of the caller's datagram buffer — a scratch sized after the caller's buffer truncates (UDP underlay) or
+    drops (SNAP underlay) large SCMP errors whenever the application receives with a small buffer."""
+    n = 0
+    for p in sorted(F.fns):
+        if not p.startswith("scion_stack::stack::socket::"):
+            continue
+        b = F.body(p)
+        if b is None:
+            continue
+        rcs = [c for c in b.calls if c.callee and re.search(r"UnderlaySocketExt>::recv$", c.callee)]
+        if not rcs or not any("ScmpHandler" in (c.callee or "") for c in b.calls):
+            continue
+        R.fn(p)
+        for c in rcs:
+            n += 1
+            o = strip_sites(b.origin(c.args[1]))
+            fe = [x for x in walk(o) if x[0] == "call" and x[1].endswith("vec::from_elem")]
+            ok, why = False, "buffer is not a fresh vec![0; N]"
+            if len(fe) == 1:
+                sz = fe[0][2][1]
+                tk = tokens(sz)
+                dyn = sorted(t for t in tk if t.startswith("param:") or t.startswith("env") or t.startswith("fn:") or t.startswith("field:"))
+                val = None
+                x = _unref14(sz)
+                if x[0] == "lit" and isinstance(x[1], int):
+                    val = x[1]
+                elif x[0] in ("const", "constref", "named") or True:
+                    m = re.search(r"([A-Za-z_][\w:]*[A-Z_]{3,}[\w]*)", fmt(x, 120))
+                    if m and not dyn:
+                        for cand in (m.group(1), "scion_stack::" + m.group(1)):
+                            try:
+                                v = F.const_value(cand)
+                            except Exception:
+                                v = None
+                            if isinstance(v, int):
+                                val = v
+                                break
+                if dyn:
+                    why = "size depends on run-time values %s" % dyn[:4]
+                elif val is None:
+                    why = "size %s is not a resolvable constant" % fmt(sz, 80)
+                elif val < 1232:
+                    why = "size %d < 1232 (largest SCMP packet)" % val
+                else:
+                    ok, why = True, "N = %d" % val
+            R.ob("BUF-scmp", "%s: scratch receive buffer holds any packet of the underlay (%s)" % (short(p), why), ok, True,
+                 {"rule": "BUF-scmp", "fn": p, "buffer": fmt(o, 200), "verdict": why})
+            if not ok:
+                R.violation("BUF-scmp", p + "/scratch", "%s receives all packets of the socket (SCMP errors included) into a scratch buffer whose %s: "
+                            "a full-size SCMP error is truncated or dropped before it reaches the SCMP handlers" % (short(p), why), c.span.loc)
+    R.floor("BUF-scmp", n, 2, "underlay receive calls in datagram receive loops that dispatch SCMP")
 
 
 def is_error_predicate(F, fn, depth=3):
